@@ -39,8 +39,12 @@ inductive KwOrder | declaration | call
 deriving Repr, DecidableEq
 '''
 
-DEFAULTS = dict(counter=('ne', True, 0), observe=('ne', True), hsum=('ne', True, 0, 0), checks=[], kworder='call',
-                kwnames='eq', poscount='eq', reset_checks=False, info_checks=False, reset_float=False)
+# Fallback values when a site has an unknown shape: the NOMINAL ones (what the unchanged library has), so that the model,
+# the driver and every lemma in their import closure still build and only `extractOk := false` (theorem `extract_ok`)
+# reports the site; a site that is understood overwrites its entries with what the source says.
+DEFAULTS = dict(counter=('lt', True, 0), observe=('le', True), hsum=('ge', True, 0, 0),
+                checks=['noLabelnames', 'hasLabelvalues', 'bothArgsKwargs'], kworder='declaration',
+                kwnames='ne', poscount='ne', reset_checks=True, info_checks=True, reset_float=True)
 
 
 def _emit(fails, v):
